@@ -6,7 +6,7 @@ for d in seeded/*/; do
   name=$(basename $d); prop=${name%%-*}
   case $name in C12-r2-inflight-limiter-forgets-permit|C12-r4-inflight-limiter-counter-not-raii) prop=C18;; esac
   # recorded as not detected (reasons in their meta.json and in DESIGN.md §14)
-  case $name in C08-r5-inflight-requests-aborted-not-awaited|C09-r5-handler-panic-logged-not-raised|C09-r5-removal-waits-for-blocking-handlers) echo "$name check=$prop (recorded as not detected)" >> out/recheck.log; continue;; esac
+  case $name in C09-r5-handler-panic-logged-not-raised|C09-r5-removal-waits-for-blocking-handlers) echo "$name check=$prop (recorded as not detected)" >> out/recheck.log; continue;; esac
   if ! git -C /repo diff --quiet; then echo "/repo dirty"; exit 3; fi
   git -C /repo apply /verif/${d}patch.diff || { echo "SKIP $name (patch does not apply)" >> out/recheck.log; continue; }
   ./check $prop quick > out/recheck-run.log 2>&1; rc=$?
